@@ -201,6 +201,13 @@ def queries(F):
         Q.append(('plot.hist1d:' + sc, lambda s, sc=sc: (F.plot.hist1d(s, 0, sc, bins=16), None)[1]))
         Q.append(('plot.scatter2d:' + sc, lambda s, sc=sc: (F.plot.scatter2d(s, [0, 1], sc, sc), None)[1]))
         Q.append(('logicle-params:' + sc, lambda s, sc=sc: (lambda t: (t.T, t.M, t.W))(F.plot._LogicleTransform(data=s, channel=0))))
+    # the same query with other options (an answer remembered from an earlier call must not come back under other options)
+    Q.append(('hist_bins1:logicle:T', lambda s: s.hist_bins(0, 32, 'logicle', T=5000.0)))
+    Q.append(('hist_bins1:logicle:TMW', lambda s: s.hist_bins(0, 32, 'logicle', T=1e5, M=5.0, W=1.0)))
+    Q.append(('hist_bins1:logicle:W0', lambda s: s.hist_bins(0, 32, 'logicle', W=0.0)))
+    Q.append(('hist_bins1:logicle:n64', lambda s: s.hist_bins(0, 64, 'logicle')))
+    Q.append(('density2d:logicle:bins12', lambda s: np.asarray(F.gate.density2d(s, [0, 1], 12, 0.6, 'logicle', 'logicle', 1.0))))
+    Q.append(('density2d:logicle:swapped', lambda s: np.asarray(F.gate.density2d(s, [1, 0], 8, 0.6, 'logicle', 'linear', 2.0))))
     for st in ('mean', 'gmean', 'median', 'std', 'iqr', 'rcv', 'mode'):
         Q.append(('stats.' + st, lambda s, st=st: getattr(F.stats, st)(s, [0, 1])))
     Q += [('high_low', lambda s: np.asarray(F.gate.high_low(s))), ('high_low-mask', lambda s: F.gate.high_low(s, [0], full_output=True).mask),
